@@ -75,6 +75,12 @@ def add (cb : Cb TA M OA U Q E) (s : Store TA M OA) (id cls : Nat) (o : Option O
     | (.ok t, k) => (.ok (), put s id t, k)
     | (.error e, k) => (.error e, s, k)
 
+/-- classes merged by the `Merge` command: the requested ones, or all classes of the source when none are given -/
+def mergeClasses (classes : Option (List Nat)) (src : Track TA M OA) : List Nat :=
+  match classes with
+  | some c => if c.isEmpty then src.obs.map (·.1) else c
+  | none => src.obs.map (·.1)
+
 /-- the `Merge` command executed by the destination's worker -/
 def mergeExternal (cb : Cb TA M OA U Q E) (s : Store TA M OA) (dest : Nat) (src : Track TA M OA)
     (classes : Option (List Nat)) (flag : Bool) : Except (Err E) Unit × Store TA M OA × Nat :=
@@ -82,13 +88,9 @@ def mergeExternal (cb : Cb TA M OA U Q E) (s : Store TA M OA) (dest : Nat) (src 
   | none => (.error (.notFound dest), s, 0)
   | some d =>
     if dest == src.id then (.error (.same dest), s, 0) else
-    let cls := match classes with
-      | some c => if c.isEmpty then src.obs.map (·.1) else c
-      | none => src.obs.map (·.1)
-    let (r, d', k) := merge cb d src cls flag
-    match r with
-    | .ok () => (.ok (), put s dest d', k)
-    | .error e => (.error e, s, k)
+    match merge cb d src (mergeClasses classes src) flag with
+    | (.ok (), d', k) => (.ok (), put s dest d', k)
+    | (.error e, _, k) => (.error e, s, k)
 
 /-- `merge_owned`: returns the removed source when asked and successful -/
 def mergeOwned (cb : Cb TA M OA U Q E) (s : Store TA M OA) (dest srcId : Nat)
